@@ -118,12 +118,46 @@ def judge(txt, name):
     return None
 
 
+WHEN_MODEL = ("model W Real x(start = 1); Real y; discrete Real d; Boolean c; equation der(x) = -x; c = x < 0.5; "
+              "when c then y = 0.5 * x; d = x; end when; end W;\n")
+
+
+def judge_when():
+    """variables assigned inside a when-equation: each component carries the variability of ITS declaration"""
+    import copy
+    from lxml import etree
+    import pymoca.parser
+    from pymoca import ast
+    from pymoca.tree import flatten
+    from pymoca.backends.xml import generator
+    tree = pymoca.parser.parse(WHEN_MODEL)
+    root = etree.fromstring(generator.generate(tree, "W").encode())
+    fc = flatten(copy.deepcopy(tree), ast.ComponentRef(name="W")).classes["W"]
+    comps = root.find(".//class").findall("component")
+    if [c.get("name") for c in comps] != list(fc.symbols.keys()):
+        return "components %s for symbols %s" % ([c.get("name") for c in comps], list(fc.symbols.keys()))
+    for c, s_ in zip(comps, fc.symbols.values()):
+        var = next((v for v in ["discrete", "continuous", "parameter", "constant"] if v in s_.prefixes), None)
+        if c.get("variability") != var:
+            return "%s: variability %r, the flat variable's prefixes %s give %r" % (s_.name, c.get("variability"), list(s_.prefixes), var)
+    if len(root.findall(".//when")) != 1:
+        return "%d <when> elements for one when-equation" % len(root.findall(".//when"))
+    return None
+
+
 def main():
     payload = json.load(sys.stdin)
     tier, seed = payload.get("tier", "quick"), int(payload.get("seed", 0) or 0)
     rng = np.random.RandomState(seed + 25)
     n_models = 40 if tier == "quick" else 400
     failures, n = [], 0
+    n += 1
+    try:
+        bad = judge_when()
+    except BaseException as e:  # noqa
+        bad = "%s: %s" % (type(e).__name__, str(e)[:120])
+    if bad:
+        failures.append({"class": "xml", "input": WHEN_MODEL, "observed": bad, "expected": "XML mirroring the flat model"})
     for i in range(n_models):
         n += 1
         txt = model(rng, i)
@@ -137,7 +171,7 @@ def main():
                 break
     if payload.get("mode") == "bounded":
         print(json.dumps({"performed": True, "cases": n, "distinct_nontrivial": n, "failures": failures,
-                          "rule": "random flat models (seed %d) with unary / n-ary operators, function calls, variables of each variability (incl. Boolean variables with literal false/true and zero-valued literals), declaration equations (Real w = expr) and literals incl. 1e-8, 2.5e-7, 1e20: the XML text of the real backend is parsed with lxml and compared with an independent flatten() of the same model" % seed,
+                          "rule": "a model with a when-equation (components keep the variability of their declarations); random flat models (seed %d) with unary / n-ary operators, function calls, variables of each variability (incl. Boolean variables with literal false/true and zero-valued literals), declaration equations (Real w = expr) and literals incl. 1e-8, 2.5e-7, 1e20: the XML text of the real backend is parsed with lxml and compared with an independent flatten() of the same model" % seed,
                           "bound": "%d models, expression depth 3" % n}))
     else:
         f = failures[0] if failures else None
